@@ -399,9 +399,16 @@ static int runFile(Ctx* c, const FileSpec& f) {
     // explicit chain lengths / the length limit, and a divisor whose sign cannot be combined with the template's
     bool hasRemainder = false;
     for (auto& fs : f.fields) if (string(FKINDS[fs.kind].type) == "STR:*") hasRemainder = true;
-    bool lengthClass = why.find("data length") != string::npos && (f.id >= 3 || hasRemainder);
-    bool signClass = why.find("derive field") != string::npos && f.pristine;
-    if (!(lengthClass && g0.result == RESULT_ERR_INVALID_POS) && !signClass) {
+    // (the classes are recognised by the STRUCTURE of the generated row, never by the loader's error code or message
+    // text: how a refusal is worded is not part of any statement.  Whether a chained / remainder row really exceeds
+    // its capacity is C09's subject, which computes the lengths independently.)
+    bool lengthClass = f.id >= 3 || hasRemainder;
+    bool signClass = false;
+    for (auto& fs : f.fields) {
+      string ty = FKINDS[fs.kind].type, ar = FKINDS[fs.kind].dv;
+      if (f.pristine && ((ty == "tenth" && ar == "-2") || (ty == "recip" && ar == "2"))) signClass = true;
+    }
+    if (!lengthClass && !signClass) {
       string w;
       for (char ch : why.substr(0, why.find(','))) w += isalnum((unsigned char)ch) ? ch : '-';
       report(c, string("C19/universe-shrunk/") + mcls + "/" + w, "a definition file that is valid by the documented CSV format is not loaded: " + g0.error, cs);
